@@ -12,14 +12,14 @@ def gen_linear(rng):
     m = O.motor_si(sc)
     st, _ = O.expected_static(sc)
     D = rng.choice([1, 1, 0.8, 0.6, -0.6, -1, -0.8])
-    if m['i0'] is not None and abs(D) <= m['i0'] / m['imax'] * 1.05:
+    if m['i0'] is not None and m['imax'] is not None and abs(D) <= m['i0'] / m['imax'] * 1.05:
         D = 1
     R = math.prod(e['ratio'] for e in st)
     G = math.prod(e['eff'] * e['ratio'] for e in st)
     J = m['J']
     for e in st:
         J = J * e['ratio'] + e['J']
-    if m['i0'] is None:
+    if m['i0'] is None or m['imax'] is None:
         TD, nls = m['Tmax'], m['w0']                    # without current data the duty cycle does not enter the law
     elif D > 0:
         TD, nls = m['Tmax'] * (D * m['imax'] - m['i0']) / (m['imax'] - m['i0']), D * m['w0']
